@@ -53,7 +53,39 @@ class Counters:
             setattr(DHEat, name, orig)
 
 
+def eval_ab(case):
+    """Engine B: the real process with the real 1.5 s rate check against real sockets.  The server counts
+    connections itself and must see EOF on every one of them once the process has exited."""
+    from vlib import abcheck
+    spec = dict(case['spec'])
+    # how many connections does the audit proper make?  (engine A, rate check skipped)
+    net = fakenet.FakeNet()
+    p0 = fakenet.peer_from_spec(spec)
+    net.add('h', 22, p0)
+    drive.run_cli(['-n', '--skip-rate-test', 'h'], net)
+    k = p0.nconn
+    beh = case['rate_behaviour']
+    if beh != 'normal':
+        spec['faults'] = list(spec.get('faults', [])) + [['connect' if beh in ('close', 'stall') else 'banner', i, beh if beh in ('close', 'stall') else ['raw', beh[6:], 'close']] for i in range(k, k + 400)]
+    ra, rb, peer_a, peer_b, eof = abcheck.run_both(spec, ['-n'], skip_rate=False)
+    fails = []
+    keys, kex = spec.get('key', []), spec.get('kex', [])
+    bound = 1 + probeable_keys(keys) + 9 * len([x for x in dict.fromkeys(kex) if x in GEX]) + RATE_MAX + RATE_CONCURRENT
+    if peer_b.nconn > bound:
+        fails.append(['real-process-too-many-connections-when-server-%s' % beh.split(':')[0], '%d connections accepted by the real server, bound %d' % (peer_b.nconn, bound)])
+    if len(eof) < peer_b.nconn:
+        fails.append(['real-process-connection-not-closed-at-exit', 'server saw EOF on %d of %d connections' % (len(eof), peer_b.nconn)])
+    rate_conns = [c for c in peer_b.conns if c.idx >= k]
+    if any(c.bytes_from_client for c in rate_conns):
+        fails.append(['real-process-data-sent-on-rate-check-connection', repr([(c.idx, c.bytes_from_client) for c in rate_conns if c.bytes_from_client][:3])])
+    if rb.code not in (0, 2, 3):
+        fails.append(['real-process-exit-status-%d' % rb.code, rb.out[-200:]])
+    return mkres(case, nt=True, classes=['engine-B', 'rate:' + beh.split(':')[0], 'conns:%d' % min(peer_b.nconn, 99)], fails=fails, info={'connections': peer_b.nconn})
+
+
 def eval_case(case):
+    if case.get('kind') == 'ab':
+        return eval_ab(case)
     spec = dict(case['spec'])
     fails = []
     skip = case['skip_rate']
@@ -168,6 +200,11 @@ def run(ctx):
                 grid.append({'spec': dict(base, kex=kexes, rate=rate), 'skip_rate': skip, 'argv': []})
                 grid.append({'spec': dict(base, kex=kexes, rate=rate), 'skip_rate': skip, 'argv': ['-j']})
     ctx.map(grid)
-    ctx.note(rate_grid_cases=len(grid))
+    ab = []
+    for beh in ['normal', 'close', 'greet:Exceeded MaxStartups\r\n', 'stall'] + ([] if ctx.quick else ['greet:HTTP/1.1 400 Bad Request\r\n\r\n', 'greet:SSH']):
+        for kexes in ((['curve25519-sha256'],) if ctx.quick else (['curve25519-sha256'], ['diffie-hellman-group14-sha256', 'diffie-hellman-group-exchange-sha256'])):
+            ab.append({'kind': 'ab', 'spec': dict(base, kex=kexes), 'rate_behaviour': beh})
+    ctx.map(ab, chunk=1)
+    ctx.note(rate_grid_cases=len(grid), traces_validated_against_impl=len(ab))
     return ctx.finish('fault_enumeration', 'Hypothesis servers: 1-5 key exchanges (probe-capable, GEX, unknown), 1-8 host-key types over the whole probe table, every moduli subset x 3 selection styles, 0-2 faults (close / stall / reset / truncation / wrong type / garbage / duplicate / debug messages) on any message of connections 0-5, behaviour towards the rate check (answers, closes at once, stalls, greets with MaxStartups / HTTP / partial / binary text), with and without --skip-rate-test, standard and policy audits; plus a dedicated rate-check grid; invariants over the connection log; non-trivial = at least 3 connections or a misbehaving server',
                       assumptions=['the virtual clock advances a fixed quantum per clock read and by the timeout per empty select, so the 1.5 s rate-check window always ends', 'sockets reclaimed by the garbage collector count as closed at exit'])
